@@ -105,6 +105,9 @@ class Aff:
         self.opaque = set()
         self.no_inner = []
         self.folds = {}
+        self.ptrloads = {}
+        self.ptrdef = {}
+        self.callres = {}
         self.loops = {}
         ls = [LoopInfo(h, bl, lat) for h, bl, lat in fn.loops()]
         for l in ls:
@@ -333,7 +336,7 @@ class Aff:
 
     def elem(self, ty):
         import symx
-        return symx.sizeof(ty, self.fn.module)
+        return symx.sizeof(ty, self.fn.module.structs)
 
     def compute(self, d):
         fn = self.fn
@@ -396,8 +399,21 @@ class Aff:
             bt = d.x['bt']
             idx = d.ops[1:]
             off = self.ev(idx[0], b) * self.elem(bt)
-            if len(idx) > 1:
-                raise Unsupported('structured gep')
+            t = bt
+            import symx
+            for ix in idx[1:]:
+                if t.k == 'struct' or t.k == 'lit':
+                    body = self.fn.module.structs.get(t.a) if t.k == 'struct' else list(t.a)
+                    if body is None or ix.k != 'int':
+                        raise Unsupported('gep into an opaque struct')
+                    offs = symx.struct_layout(body, self.fn.module.structs)[2]
+                    off = off + offs[ix.v]
+                    t = body[ix.v]
+                elif t.k == 'array':
+                    off = off + self.ev(ix, b) * self.elem(t.b)
+                    t = t.b
+                else:
+                    raise Unsupported('structured gep')
             return p + off
         if op == 'load':
             p = self.ev(d.ops[0], b)
@@ -407,7 +423,17 @@ class Aff:
                 tag = self.loadtag.get(id(d))
             if tag is None:
                 raise Unsupported('load outside the linearised regions')
-            return ldraw(p, sp.Integer(self.elem(d.ty)), sp.Symbol(tag))
+            v = ldraw(p, sp.Integer(self.elem(d.ty)), sp.Symbol(tag))
+            if d.ty.is_ptr:
+                # a pointer read from memory is a base in its own right
+                key = sp.srepr(v)
+                if key not in self.ptrloads:
+                    sy = sp.Symbol('ptr%d_%s' % (len(self.ptrloads), d.res.replace('.', '_')), real=True)
+                    self.ptrloads[key] = (sy, v)
+                    self.ptrs.add(sy)
+                    self.ptrdef[sy] = v
+                return self.ptrloads[key][0]
+            return v
         if op == 'select':
             c = self.cmp_of(fn.defs[d.ops[0].v]) if d.ops[0].k == 'reg' and fn.defs.get(d.ops[0].v) is not None and \
                 fn.defs[d.ops[0].v].op in ('icmp', 'fcmp') else None
@@ -443,7 +469,17 @@ class Aff:
                     r = callee.blocks[0].term
                     if r.op == 'ret' and r.ops and not any(i.op in ('store', 'load') for i in callee.blocks[0].instrs):
                         return sub.ev(r.ops[0], callee.blocks[0])
-            raise Unsupported('value of call to %s' % name)
+            # a call with a result that is not pure: its value is an unknown of its own (the call itself is an item of the tree)
+            if d.res not in self.callres:
+                if d.ty is not None and d.ty.is_ptr:
+                    sy = sp.Symbol('ret_%s' % d.res.replace('.', '_'), real=True)
+                    self.ptrs.add(sy)
+                elif d.ty is not None and d.ty.is_int:
+                    sy = sp.Symbol('ret_%s' % d.res.replace('.', '_'), integer=True, nonnegative=True)
+                else:
+                    sy = sp.Symbol('ret_%s' % d.res.replace('.', '_'), real=True)
+                self.callres[d.res] = sy
+            return self.callres[d.res]
         if op in ('icmp', 'fcmp'):
             raise Unsupported('comparison used as a value')
         raise Unsupported('instruction %s' % op)
